@@ -451,3 +451,6 @@ def pdf_raises(ctx, st, exc):
 UNITS.append(Unit("C03", "jsonargparse._core:ArgumentParser._parse_defaults_and_environ", pdf_setup, pdf_post, pdf_raises, label="fault-mode", expect_cover=("return", "raise:ArgumentError", "raise:SystemExit", "raise:TypeError"),
                   trusted=["get_defaults raises ArgumentError for a problem in a default config file (its own unit), TypeError / KeyError otherwise", "self.error never returns (unit above)",
                            "_load_env_vars / merge_config in the fault-free model here (their failures are TypeError / KeyError: the parse-method units)"]))
+
+from contracts.share import carried as _carried  # noqa: E402
+UNITS += _carried("C03")
